@@ -212,7 +212,9 @@ def run(ck):
         a, b, d = [u(e) for e in floop[0].target.elts]
         sig = single_def(comp, 'sigma')
         nb = [c for c in walk_local(comp) if isinstance(c, ast.Call) and call_name(c) == 'NonbondParam']
-        ok2 = sig is not None and u(sig) == '{} / self.conversion_factor'.format(d) and len(nb) == 1 and u(kwarg(nb[0], 'sigma')) == 'sigma' and \
+        # sigma as a local or written straight into the call
+        sig_txt = u(sig) if sig is not None else (u(kwarg(nb[0], 'sigma')) if len(nb) == 1 and kwarg(nb[0], 'sigma') is not None else '?')
+        ok2 = sig_txt == '{} / self.conversion_factor'.format(d) and len(nb) == 1 and u(kwarg(nb[0], 'sigma')) in ('sigma', sig_txt) and \
             u(kwarg(nb[0], 'epsilon')) == 'self.go_eps' and u(kwarg(nb[0], 'atoms')) == '({}, {})'.format(a, b)
         app = [s for s in floop[0].body if isinstance(s, ast.Expr) and call_attr(s.value) == 'append' and 'nonbond_params' in u(s)]
         ok2 = ok2 and len(app) == 1 and unconditional_in(comp, floop[0].body, app[0])
